@@ -39,6 +39,7 @@ def main():
         # regenerate Gen/ for the real repository
         subprocess.run(["/venv/bin/python", os.path.join(VERIF, "translator", "translate.py"), "/repo", os.path.join(VERIF, "coq", "Gen")],
                        stdout=subprocess.DEVNULL)
+        subprocess.run(["timeout", "3000", "make", "-k", "-j16"], cwd=os.path.join(VERIF, "coq"), stdout=subprocess.DEVNULL, stderr=subprocess.DEVNULL)
 
 if __name__ == "__main__":
     main()
